@@ -14,6 +14,7 @@ RULE = ('the same deterministic case file is executed by harness binaries compil
         'distinct = (op family, variant, offset, block count, tail) per build')
 ASSUMPTIONS = ['host CPU executes SSE4.1/AVX/AVX2 (checked at run time; a configuration the CPU cannot run is reported, not judged)', 'spec models of C01-C11']
 FLOORS = {'evaluations': 12000, 'distinct': 3000}
+THOROUGH_ROUNDS = 8   # thorough tier: generator passes with derived seeds (runner.gen_rounds)
 CFGS = ['rel', 'sse41', 'avx', 'avx2']
 
 
@@ -136,7 +137,7 @@ def san_subset(lines, rng=None):
 def run(tier, seed, replay=None):
     rep = R.Report(ID, tier, seed)
     rep.rule = RULE; rep.assumptions = list(ASSUMPTIONS)
-    lines = [l.rstrip('\n') for l in open(replay) if l.strip() and not l.startswith('#')] if replay else list(gen(tier, seed))
+    lines = [l.rstrip('\n') for l in open(replay) if l.strip() and not l.startswith('#')] if replay else R.gen_rounds(__import__('sys').modules[__name__], tier, seed)
     wd = R.workdir(ID)
     casefile = os.path.join(wd, 'cases-%s-%d.txt' % (tier, seed))
     R.write_cases(casefile, lines)
@@ -187,8 +188,18 @@ def run(tier, seed, replay=None):
             R.write_cases(mfile, [l for l in msub if not l.startswith('hashoff sha2') and not l.startswith('hh sha2')])
             sans.append(S.miri(mfile, len(msub), 'miri-avx2', target_features='+avx2'))
         extra['sanitizers'] = []
+        # instrumented / interpreted executions of the SIMD build must return what the native SIMD binary returns
+        nat_s, _ = R.run_driver(bins['avx2'], sfile, nsub, 'avx2-san')
+        nat_m = {}
+        if tier == 'thorough':
+            nat_m, _ = R.run_driver(bins['avx2'], mfile, len(msub), 'avx2-miri')
         for s in sans:
-            extra['sanitizers'].append({'tool': s['tool'], 'ops_executed': s['ops_executed'], 'reports': len(s['reports']), 'inconclusive': s['inconclusive']})
+            nat, src_lines = (nat_m, [l for l in msub if not l.startswith('hashoff sha2') and not l.startswith('hh sha2')]) if s['tool'].startswith('miri') else (nat_s, sub)
+            dn = S.differs_from_native(s, nat)
+            for i, a, b in dn:
+                rep.violations.append((s['tool'], i, 'C16:%s-vs-native:value-differs' % s['tool'].split(':')[0], 'native avx2: %s | under %s: %s' % (' '.join(a)[:80], s['tool'], ' '.join(b)[:80]), src_lines[i], b))
+            extra['sanitizers'].append({'tool': s['tool'], 'ops_executed': s['ops_executed'], 'reports': len(s['reports']), 'inconclusive': s['inconclusive'],
+                                        'results_compared_with_native': sum(1 for i in s.get('results', {}) if i in nat), 'results_differing_from_native': len(dn)})
             for r in s['reports']:
                 if r.get('crate_frame') or 'crash' in r['kind']:
                     rep.violations.append((s['tool'], r.get('line', -1), 'C16:sanitizer:%s' % s['tool'], '%s at %s' % (r['kind'], r.get('crate_frame')), r['text'][:300].replace('\n', ' | '), None))
